@@ -114,6 +114,8 @@ type SpecFun struct {
 	Name   string
 	Args   []string
 	Ret    string
+	SrcArgs []string
+	SrcRet  string
 	GoType string // optional Go type of the result (e.g. *ZogIssue), resolved in Pkg
 	Pkg    string
 }
